@@ -663,6 +663,9 @@ func applyFault(sc *Scenario, class string, r *Rng, shape int) (errLike string) 
 		// late in the simulated period)
 		from := sc.Start.Zeit() + r.Range(20, 60)
 		to := from + r.Range(0, 20)
+		if shape%4 == 3 && sc.Weather.EndsMidYear {
+			shape = 2 // the series stops shortly after the end date: the end date cannot be moved to 31 December
+		}
 		switch shape % 4 {
 		case 1:
 			to = from
